@@ -94,6 +94,19 @@ def run(ctx):
         bad = cfg.must_follow([n], lambda m: m.kind == "stmt" and norm(m.ast) == "meta_found = True")
         r.check("R15.2", not bad, "rewrite-sets-found@%d" % rew.index(n), "%s:%d" % (REL, n.lineno),
                 "a rewritten declaration is not recorded as found: a second one would be injected")
+    # recognition of existing declarations is as case-insensitive as the reading side (the parser lower-cases the
+    # http-equiv value; attribute and element names reach the filter lower-cased for HTML but not for foreign content)
+    insens = lambda e: isinstance(e, ast.Call) and isinstance(e.func, ast.Attribute) and e.func.attr in ("lower", "casefold", "translate")  # noqa: E731
+    for lit, what in (("content-type", "the http-equiv value"), ("charset", "the charset attribute name")):
+        tests = [n for n in ast.walk(f.node) if isinstance(n, ast.Compare) and len(n.ops) == 1 and isinstance(n.ops[0], ast.Eq)
+                 and isinstance(n.comparators[0], ast.Constant) and n.comparators[0].value == lit]
+        ok = len(tests) == 1 and insens(tests[0].left)
+        r.check("R15.2", ok, "case-insensitive:%s" % lit, f.where,
+                "%s is compared case-sensitively with %r: a declaration spelt `Content-Type` / `CHARSET` is not recognised, the "
+                "stale one stays and a second one is injected" % (what, lit), detail={"literal": lit})
+    reader = repo.func("html5parser.py", "InHeadPhase.startTagMeta")
+    r.check("R15.2", "attributes['http-equiv'].lower() == 'content-type'" in norm(reader.node), "reader-is-case-insensitive", reader.where,
+            "the reading side no longer lower-cases the http-equiv value (writer/reader agreement basis changed)")
     # no token dropped: the loop body ends with `if state == "in_head": pending.append(token) else: yield token`,
     # and the only `continue` follows the replacement of an empty head
     loop = next((s for s in f.node.body if isinstance(s, ast.For)), None)
@@ -165,6 +178,7 @@ def mutants():
         T("charset-not-rewritten", REL, "                            token[\"data\"][(namespace, name)] = self.encoding\n", "", "R15.2"),
         T("found-not-set", REL, "                            token[\"data\"][(None, \"content\")] = 'text/html; charset=%s' % self.encoding\n                            meta_found = True",
           "                            token[\"data\"][(None, \"content\")] = 'text/html; charset=%s' % self.encoding", "R15.2"),
+        T("http-equiv-case", REL, "elif name == 'http-equiv' and value.lower() == 'content-type':", "elif name == 'http-equiv' and value == 'content-type':", "R15.2"),
         T("text-strict", S, "                    yield self.encode(escape(token[\"data\"]))", "                    yield self.encodeStrict(escape(token[\"data\"]))", "R15.3"),
         T("attr-strict", S, "                            yield self.encode(v)\n                            yield self.encodeStrict(quote_char)", "                            yield self.encodeStrict(v)\n                            yield self.encodeStrict(quote_char)", "R15.3"),
         T("handler-name", S, "register_error(\"htmlentityreplace\", htmlentityreplace_errors)", "register_error(\"htmlentityreplace2\", htmlentityreplace_errors)", "R15.3"),
